@@ -138,3 +138,22 @@ Example ex_handshake :
   run tcp_prog [Some 1; None; Some 2; None; None; Some 3; None; Some 9]%Z (mkLink true 0 true) =
     [mkPass 1 true true 0; mkPass 2 false false 0; mkPass 3 true true 1; mkPass 9 false true 1].
 Proof. vm_compute. repeat split. Qed.
+
+(* C10_in_flight_retransmission_not_forwarded, C10_superseded_late_reply_not_delivered and
+   C17_server_gone_empties_its_table are not vacuous: in the state after the request and a writer pass (object 0 from
+   client 0 outstanding at server 0 under identifier 0, DuplicateInterval 10, received at 100) a second object with
+   its Identifier and authenticator arriving at 105 meets every premise and is not registered; superseding the
+   original, or the server going away, empties the slot that was occupied *)
+From RSP Require Import Dup_proofs.
+Local Open Scope N_scope.
+Example ex_in_flight :
+  let st := fold_left (hstep toy_md5 toy_rx ex_cfg) ex_ops1 (init_state 1 1) in
+  match get_rq st 0 with
+  | Some r => slot_of st 0 0 = Some 0%nat /\ rq_from r = Some 0%nat /\
+    is_dup ex_cfg r r 105%Z = true /\ is_dup ex_cfg r r 110%Z = false /\
+    (let '(st1, h) := alloc_rq st r in addclientrq toy_md5 ex_cfg nofail st1 h 0 105%Z = (false, st1, [])) /\
+    slot_of (removeclientrq st 0 (rq_rqid r)) 0 0 = None /\
+    slot_of (freeserver st 0) 0 0 = None
+  | None => False
+  end.
+Proof. vm_compute. repeat split; reflexivity. Qed.
